@@ -19,8 +19,7 @@ Callees are leaves carrying the contracts proved on their real text in other uni
 optional_error (unit lexer), find_element_in_spec_checked, check_element_conflict, check_multiplicity (unit elemcheck),
 parse_character_data (unit valueparse; only its frame clause is used), chardata_spec, is_ref, is_named_in_version (unit lookups).  The
 vocabulary of the lexer contract (inv, measure, same_buf, nl) is uninterpreted here -- a weaker reading of the same clauses.
-Two frame facts are ASSUMED for callees that take `&mut self` and have no such clause in their own unit: parse_attribute_text and
-parse_character_data leave `strict` and `fileversion` unchanged; both are justified by the syntactic frame scan of C08 (`strict` is
+One frame fact is ASSUMED: parse_character_data leaves `fileversion` unchanged (its own unit proves this for `strict` only); justified by the syntactic frame scan of C08 (`strict` is
 assigned only in new, `fileversion` only in new / parse_file_header).
 
 The element graph: `raw_element.wrap()` + the write guard are replaced by working on the ElementRaw value itself and wrapping it at the
@@ -63,7 +62,7 @@ pub proof fn axiom_measure_nonneg(l: &ArxmlLexer) requires l.inv() ensures l.mea
 pub struct Element { pub opaque: u64 }
 pub struct CharacterData { pub opaque: u64 }
 pub enum ElementContent { Element(Element), CharacterData(CharacterData) }
-pub struct SmallVecAttr { pub opaque: u8 }
+pub struct Attribute { pub attrname: AttributeName, pub content: CharacterData }
 pub struct VxPath { pub opaque: u8 }
 pub uninterp spec fn name_of(e: Element) -> ElementName;
 pub uninterp spec fn type_of(e: Element) -> ElementType;
@@ -91,7 +90,7 @@ pub fn vx_lexer_new<'b>(buffer: &'b [u8], filename: PathBuf) -> (r: ArxmlLexer<'
 impl<'a> ArxmlParser<'a> {
     // parse_file_header sets the file version from the schema location; `strict` is not touched (frame scan F4)
     #[verifier::external_body]
-    pub fn parse_file_header(&mut self, attributes: &SmallVecAttr) -> (r: Result<(), AutosarDataError>)
+    pub fn parse_file_header(&mut self, attributes: &Vec<Attribute>) -> (r: Result<(), AutosarDataError>)
         ensures final(self).strict == old(self).strict
     { unimplemented!() }
 }
@@ -142,7 +141,7 @@ pub open spec fn named_ok(c: Seq<ElementContent>, t: ElementType, v: u32) -> boo
 }
 '''
 
-ELEMENTRAW = "pub struct ElementRaw { pub elemname: ElementName, pub elemtype: ElementType, pub content: Vec<ElementContent>, pub attributes: SmallVecAttr, pub comment: Option<String> }"
+ELEMENTRAW = "pub struct ElementRaw { pub elemname: ElementName, pub elemtype: ElementType, pub content: Vec<ElementContent>, pub attributes: Vec<Attribute>, pub comment: Option<String> }"
 
 NEW_ELEMENT = (r'let new_element = ElementRaw \{\s*parent: ElementOrModel::Element\(wrapped_element\.downgrade\(\)\),\s*elemname: name,\s*elemtype: sub_elemtype,\s*content: SmallVec::new\(\),\s*'
                r'attributes: self\.parse_attribute_text\(sub_elemtype, attr_text\)\?,\s*file_membership: HashSet::with_capacity\(0\),\s*comment: stored_comment,\s*\};')
@@ -273,14 +272,14 @@ def make_unit(repo_dir):
              dropped=['the element graph: `raw_element.wrap()` and the write guard are replaced by working on the ElementRaw value and wrapping it at the end (vx_wrap); ElementRaw is {elemname, elemtype, content: Vec, attributes, comment}; Cow<str> path is opaque',
                       'block-level leaves (R42): SHORT-NAME path bookkeeping (vx_register_name), reference registration (vx_register_reference), comment text (vx_comment); error payloads opaque (R36)',
                       'callees are leaves with the contracts proved in units lexer / elemcheck / valueparse / lookups; the lexer vocabulary (inv, measure, same_buf, nl) is uninterpreted',
-                      'ASSUMED frame: parse_attribute_text and parse_character_data leave strict / fileversion unchanged (justified by the syntactic frame scan: strict assigned only in new, fileversion only in new / parse_file_header)'])
+                      'ASSUMED frame: parse_character_data leaves fileversion unchanged (justified by the syntactic frame scan: fileversion is assigned only in new / parse_file_header); parse_attribute_text: frame clause proved in unit attrparse'])
     # leaves
     for name in ('ArxmlParser.next', 'ArxmlParser.error', 'optional_error', 'verify_end_of_input'):
         u.leaves.append((pf[name], 'lexer'))
-    pat = copy.copy(pf['parse_attribute_text'])
-    pat.requires = ['elemtype.typ < n_dt()']
-    pat.ensures = ['final(self).same_core(old(self))']
-    u.leaves.append((pat, 'lexer (slicing arithmetic only; the frame clause is ASSUMED, frame scan)'))
+    from contracts import attrparse
+    pat = copy.copy(attrparse.make_unit(repo_dir).fns[0])
+    pat.ensures = [pat.ensures[0]]
+    u.leaves.append((pat, 'attrparse (frame clause)'))
     for name in ('find_element_in_spec_checked', 'check_element_conflict', 'check_multiplicity'):
         u.leaves.append((ec[name], 'elemcheck'))
     pcd = copy.copy(vp['parse_character_data'])
